@@ -57,6 +57,12 @@ func TestC18(t *testing.T) {
 				bi := rapid.IntRange(0, 2).Draw(t, "bucket")
 				tfSec := int64(hx.TFDuration(buckets[bi].TF).Seconds())
 				slot := base + tfSec*rapid.Int64Range(1, 6).Draw(t, "slot")
+				if rapid.IntRange(0, 7).Draw(t, "otherYear") == 0 {
+					// the same interval of another year: the first such write creates a year file and
+					// registers it in the catalog while readers and other writers use the bucket
+					slot += 365 * 86400 * rapid.Int64Range(1, 4).Draw(t, "years")
+					slot -= slot % tfSec
+				}
 				progs[w] = append(progs[w], wr{bi, slot, int64(w+1)<<32 | int64(i+1)})
 			}
 		}
